@@ -639,6 +639,20 @@ func genCase(rnd *hx.Rand, tier string) Case {
 	}
 	for i := 0; i < n; i++ {
 		ph := Phase{Ops: prim.GenHistory(rnd, 2+rnd.Intn(6), cfg), Snapshot: rnd.Chance(75)}
+		if rnd.Chance(15) {
+			// the follower falls behind retention while it is down: level 0 pruned after compaction,
+			// levels 1-2 pruned below a fresh snapshot. The gap is then NOT bridgeable and the follower
+			// must not apply anything across it.
+			ops := []prim.Op{}
+			for j := 0; j < 2+rnd.Intn(3); j++ {
+				ops = append(ops, prim.Op{K: "write", A: 1 + rnd.Intn(8), B: 100 + rnd.Intn(2500)}, prim.Op{K: "sync"})
+			}
+			ops = append(ops, prim.Op{K: "compact", A: 1}, prim.Op{K: "compact", A: 2}, prim.Op{K: "snapshot"}, prim.Op{K: "retain", A: 2},
+				prim.Op{K: "update", A: 1 + rnd.Intn(3), B: 100 + rnd.Intn(2500)}, prim.Op{K: "sync"},
+				prim.Op{K: "write", A: 1 + rnd.Intn(8), B: 100 + rnd.Intn(2500)}, prim.Op{K: "sync"}, prim.Op{K: "compact", A: 1})
+			c.Phases = append(c.Phases, Phase{Mode: "down", Ops: ops}, Phase{Mode: "run", Ops: prim.GenHistory(rnd, 1+rnd.Intn(3), cfg), Snapshot: true})
+			continue
+		}
 		switch k := rnd.Intn(100); {
 		case k < 25:
 			ph.Mode = "run"
